@@ -65,6 +65,12 @@ use self::{
 pub mod reporting;
 mod store;
 mod task;
+
+/// Re-exports for the external verification harness (feature `verif`).
+#[cfg(feature = "verif")]
+pub mod verif_hooks {
+    pub use super::task::verif_hooks as task;
+}
 #[cfg(test)]
 mod tests;
 
